@@ -12,7 +12,7 @@ local macro "evalm" : tactic => `(tactic|
     runHandler, runHandlerN, tickOr, pushVals, longjmp, thenTick, catchFinish, safeFinish, callFinish, leaveCall, safeCtx,
     restoreContext, popFrame, popN, popStack, afterCatch, popContext, limitBits, handlerRegs, masterVal, enterCall,
     adjustArgs, framesOf, hasReturnTick, depthCheck, setRegister, topBody, topFinish, tmpFinish, loadFinish, dhookFinish,
-    hbOffStep, hbFinish, verbFinish])
+    hbOffStep, hbFinish, verbFinish, vitalFinish, runSlotHandler, fixNamesId, dropTop])
 
 def okInstalled : Res → Option (List String)
   | .ok m => some m.installed
@@ -137,6 +137,25 @@ theorem caught_throw_in_dhook_restores_guards :
 
 theorem error_resets_guards_example : errLoadDepth (raise "*e" inCatchLoading) = some 0 := by
   simp [errLoadDepth, inCatchLoading]; evalm
+
+/-- destruct(master()) whose reload fails in create() of the new copy, inside a catch: the fix_object_names slot is run by the
+    unwinding and the master carries its name again; the load-depth guard is back as well -/
+def vitalBoom : Res :=
+  execCore (.catch_ (Prog.ofList [.tmp 1 (Prog.ofList [.vital true (Prog.ofList [.load (Prog.ofList [.raise "*boom"])])])])) {}
+
+theorem failed_master_reload_restores_name :
+    (match vitalBoom with | .ok m => some (m.masterName, m.simulName, m.loadDepth, m.vs.length, m.ran) | _ => none) =
+      some (1, 2, 0, 0, [fixNamesId]) := by
+  simp [vitalBoom, Prog.ofList]; evalm
+
+/-- a destruct of the master from inside its own reload is refused before anything is recorded; both slots … the one slot
+    restores the name -/
+def vitalNested : Res :=
+  execCore (.catch_ (Prog.ofList [.vital true (Prog.ofList [.vital true (Prog.ofList [.say "never"])])])) {}
+
+theorem nested_master_destruct_keeps_name :
+    (match vitalNested with | .ok m => some (m.masterName, m.out.length) | _ => none) = some (1, 1) := by
+  simp [vitalNested, Prog.ofList]; evalm
 
 /-- a heart beat that raises an error: recovered by the backend's own context (both stacks empty at the next poll point),
     and error_handler has switched the heart beat of that object off -/
